@@ -723,14 +723,14 @@ def replay_path(exe, root, pi, path, text, decoy=None):
         replay_path(exe, root, pi, path, decoy)
     P, C, E = path['parse'], path['compile'], path['execute']
     open(os.path.join(wd, P['src']), 'w', encoding='utf-8').write(text)
-    args = ['parse'] + ([P['src']] if P['in'] == 'file' else []) + (['--format', P['fmt']] if P['explicit'] else [])
+    args = ['parse'] + ([P['src']] if P['in'] == 'file' else []) + (['--format', P['named']] if P['explicit'] else [])
     args += {'file': ['-o', 'a/tree.' + P['fmt']], 'fileneutral': ['-o', 'a/tree.out'], 'filewrong': ['-o', path['ast']['path']], 'dir': ['-o', 'd'], 'stdout': []}[P['out']]
     rc, so, se = run_stage(exe, wd, args, stdin_path=(P['src'] if P['in'] == 'stdin' else None), capture_to=('a/captured.txt' if P['out'] == 'stdout' else None))
     obs = {'stages': [('parse', rc)], 'stderr': se}
     if rc != 0 or not os.path.exists(os.path.join(wd, path['ast']['path'])):
         obs['failed'] = 'parse' if rc != 0 else 'parse-artifact-missing'
         return obs
-    args = ['compile'] + ([path['ast']['path']] if C['in'] == 'file' else []) + (['--input-format', C['fmt']] if C['explicit'] else [])
+    args = ['compile'] + ([path['ast']['path']] if C['in'] == 'file' else []) + (['--input-format', C['named']] if C['explicit'] else [])
     args += {'file': ['-o', 'b/code.bc'], 'dir': ['-o', 'e'], 'stdout': []}[C['out']]
     rc, so, se = run_stage(exe, wd, args, stdin_path=(path['ast']['path'] if C['in'] == 'stdin' else None), capture_to=('b/captured.bin' if C['out'] == 'stdout' else None))
     obs['stages'].append(('compile', rc))
@@ -751,8 +751,8 @@ def replay_path(exe, root, pi, path, text, decoy=None):
 
 def c06(tier):
     chk = Check('C06', tier)
-    chk.rule = ('TLC explores the stage machine FMLPipeline and prints every complete configuration path (input file|stdin, -o file|dir|stdout, format explicit|inferred, x json|lisp|yaml; '
-                '468 paths, artifact names predicted by the model); each path is replayed with real subprocesses for payload programs (corpus programs, format strings over control '
+    chk.rule = ('TLC explores the stage machine FMLPipeline and prints every complete configuration path (source name plain | with further dots, input file|stdin, -o file|file with a neutral or lying extension|dir|stdout, format inferred | named in lower or upper case, x json|lisp|yaml; '
+                '2646 paths, artifact names predicted by the model); each path is replayed with real subprocesses for payload programs (corpus programs, format strings over control '
                 'characters / YAML-, S-expression-, JSON-significant text / astral and BOM code points, AST nesting depth 1..400 in six shapes) and compared with `fml run` (file and stdin) and '
                 'the repository wrapper script by FMLObservations (exit status + stdout; compiled bytes vs the in-process compiler); AST identity per format is checked in-process on every '
                 'payload and on seeded random ASTs and judged by TraceParse. distinct_nontrivial = distinct (payload, path) replays + distinct (AST, format) reloads.')
@@ -792,6 +792,11 @@ def c06(tier):
         return [p for p in paths if pred(p)]
     per_format = [pick(lambda p, f=f: p['parse']['fmt'] == f and p['parse']['out'] == 'file' and p['parse']['explicit'] and p['compile']['in'] == 'file' and not p['compile']['explicit']
                        and p['compile']['out'] == 'file' and p['execute']['in'] == 'file' and p['parse']['in'] == 'file')[0] for f in ('json', 'lisp', 'yaml')]
+    # ... the same through pipes only (stdout of one stage is stdin of the next), and through -o DIRECTORY
+    per_format_pipe = [pick(lambda p, f=f: p['parse']['fmt'] == f and p['parse']['out'] == 'stdout' and p['parse']['named'] == f and p['compile']['in'] == 'stdin' and p['compile']['named'] == f
+                            and p['compile']['out'] == 'stdout' and p['execute']['in'] == 'stdin' and p['parse']['in'] == 'stdin')[0] for f in ('json', 'lisp', 'yaml')]
+    per_format_dir = [pick(lambda p, f=f: p['parse']['fmt'] == f and p['parse']['out'] == 'dir' and p['parse']['named'] == f.upper() and p['compile']['in'] == 'file' and not p['compile']['explicit']
+                           and p['compile']['out'] == 'dir' and p['execute']['in'] == 'file' and p['parse']['in'] == 'file' and p['parse']['src'] != 'prog.fml')[0] for f in ('json', 'lisp', 'yaml')]
     tasks = []
     for pi, pl in enumerate(payloads):
         if pl['paths'] == 'all':
@@ -799,7 +804,7 @@ def c06(tier):
         elif pl['paths'] == 'formats':
             chosen = per_format
         elif pl['paths'] == 'few':
-            chosen = per_format + rng.sample(paths, 2 if tier != 'thorough' else 8)
+            chosen = per_format + per_format_pipe + per_format_dir + rng.sample(paths, 2 if tier != 'thorough' else 8)
         else:
             chosen = per_format + rng.sample(paths, 12 if tier != 'thorough' else 60)
         for path in chosen:
@@ -841,8 +846,9 @@ def c06(tier):
     for k, (pi, path) in enumerate(tasks):
         o = results[k]
         pl = payloads[pi]
-        cfg = 'parse[%s %s %s%s] compile[%s %s%s] execute[%s]' % (path['parse']['in'], path['parse']['out'], path['parse']['fmt'], ' explicit' if path['parse']['explicit'] else ' inferred',
-                                                                  path['compile']['in'], path['compile']['out'], ' explicit' if path['compile']['explicit'] else ' inferred', path['execute']['in'])
+        cfg = 'parse[%s %s %s %s%s] compile[%s %s%s] execute[%s]' % (path['parse']['src'] if path['parse']['in'] == 'file' else 'stdin', path['parse']['in'], path['parse']['out'], path['parse']['fmt'],
+                                                                     ' --format ' + path['parse']['named'] if path['parse']['explicit'] else ' inferred',
+                                                                     path['compile']['in'], path['compile']['out'], ' --input-format ' + path['compile']['named'] if path['compile']['explicit'] else ' inferred', path['execute']['in'])
         chk.count((pl['name'], cfg))
         if 'failed' in o:
             val = {'status': 'fail', 'stdout': hashlib.sha1(b'').hexdigest()}          # a stage that refuses = a failure before any output
